@@ -64,7 +64,7 @@ DYNAMIC = {
 TIERS = {
     # sequences per profile, max ops per sequence, search multiplier
     "quick": dict(count=2400, maxops=70, search=3),
-    "thorough": dict(count=48000, maxops=240, search=4),
+    "thorough": dict(count=200000, maxops=240, search=4),
 }
 
 LEVELS = {}  # property -> evidence level, filled from MANIFEST.json
@@ -411,6 +411,17 @@ def main(argv):
     ob = lean_obligations(prop)
     lean_ok = ob["build_ok"] and not ob["forbidden"] and ob["obligations"] > 0 and ob["discharged"] == ob["obligations"]
     log(f"[lean] {ob['module']}: obligations={ob['obligations']} discharged={ob['discharged']} build_ok={ob['build_ok']}")
+    # thorough tier: the toolchain's independent re-checker replays the compiled declarations of
+    # the property module(s) through the kernel again
+    ob["leanchecker"] = None
+    if tier == "thorough" and ob["build_ok"] and shutil.which("leanchecker"):
+        tlc = time.time()
+        rc_lc, out_lc = run(["lake", "env", "leanchecker"] + ob["module"].split(), cwd=LEAN, timeout=3600)
+        ob["leanchecker"] = dict(rc=rc_lc, seconds=round(time.time() - tlc, 1), output=out_lc[-600:])
+        log(f"[lean] leanchecker {ob['module']}: rc={rc_lc} in {ob['leanchecker']['seconds']}s")
+        if rc_lc != 0:
+            lean_ok = False
+            ob["open"] = ob["open"] + [f"leanchecker rejected {ob['module']}"]
     if ob["forbidden"]:
         log(f"[lean] forbidden tokens: {ob['forbidden'][:5]}")
     okm, outm = build_lean(["gcmodel"])
@@ -633,6 +644,7 @@ def main(argv):
                       "monitors and shadow graph of harness/src/shadow.rs", "rustc / std semantics"],
         theorems=[t["name"] for t in ob["theorems"]], open_statements=ob["open"],
         pending_full_strength_statements=ob.get("pending_statements", []),
+        leanchecker=ob.get("leanchecker"),
         evaluations=agg["sequences"] + (static_res or {}).get("evaluations", 0),
         distinct_nontrivial=len(agg["hashes"]) + (static_res or {}).get("distinct_nontrivial", 0),
         rule=("sequences generated online from one SplitMix64 state per sequence (profiles: %s), mode %s; a sequence is non-trivial when it "
@@ -658,7 +670,7 @@ def main(argv):
         f.write("\n")
     log(f"[summary] {prop} tier={tier} sequences={agg['sequences']} ops={agg['ops']} distinct_nontrivial={len(agg['hashes'])} "
         f"diffs={len(diffs)} monitor={len(monitor_viol)} known={len(known_hits)} crashes={len(crashes)} "
-        f"obligations={ob['obligations']}/{ob['discharged']} wall={ev['wall_s']}s")
+        f"obligations_discharged={ob['discharged']}/{ob['obligations']} wall={ev['wall_s']}s")
     for line in violation_lines[:3]:
         print(line, flush=True)
     return 1 if violation_lines else 0
